@@ -61,8 +61,89 @@ def registry_consistent(obj):
     return True
 
 
+class Model:
+    """abstract registry: what the construction API is supposed to maintain"""
+
+    def __init__(self, s, box, x, y, bx, p1):
+        self.parents = {'sys': s, 'box': box}
+        self.wires = {'sys': {'x': x, 'y': y}, 'box': {'x': bx}}
+        self.children = {'sys': {'p1': p1, 'b': box}, 'box': dict(box.children)}
+        self.driven = {id(y)}
+
+    def where(self, w):
+        for k, d in self.wires.items():
+            for n, o in d.items():
+                if o is w:
+                    return k, n
+        return None, None
+
+
+def run_op(m, s, box, x, y, o, par, name, w, k):
+    """executes one operation; returns (description, conflict expected by the model, exception or None, model updater)"""
+    pk = ['sys', 'box'][par]
+    parent = m.parents[pk]
+    what, expect, upd = '', False, (lambda: None)
+    raised = None
+    try:
+        with quiet():
+            if o == 0:
+                what = 'Wire(%s, %r)' % (pk, name)
+                expect = name in m.wires[pk]
+                nw = Wire(parent, name, 2)
+                upd = lambda: m.wires[pk].__setitem__(name, nw)
+            elif o == 1:
+                what = 'Buf(%s, %r, x, new)' % (pk, name)
+                expect = name in m.children[pk]
+                fresh = s.wire('fresh_target_%d' % k, 2)
+                m.wires['sys']['fresh_target_%d' % k] = fresh
+                c = Buf(parent, name, x, fresh)
+                upd = lambda: (m.children[pk].__setitem__(name, c), m.driven.add(id(fresh)))
+            elif o == 2:
+                if par == 0:
+                    tgt = y
+                else:
+                    tgt = s.wire('undriven_target_%d' % k, 2)
+                    m.wires['sys']['undriven_target_%d' % k] = tgt
+                what = 'Buf(sys, "drv%d", x, %s)' % (k, tgt.name)
+                expect = id(tgt) in m.driven
+                m.children['sys']['drv%d' % k] = None          # the child name is taken even when the driver is refused
+                Buf(s, 'drv%d' % k, x, tgt)
+                upd = lambda: m.driven.add(id(tgt))
+            elif o == 3:
+                wk, wn = m.where(w)
+                what = '%s.rename(%r)' % (wn, name)
+                expect = (name in m.wires[wk]) and (m.wires[wk][name] is not w)
+                w.rename(name)
+
+                def upd():
+                    del m.wires[wk][wn]
+                    m.wires[wk][name] = w
+            elif o == 4:
+                wk, wn = m.where(w)
+                what = '%s.reparent(box)' % wn
+                expect = (wn in m.wires['box']) and (m.wires['box'][wn] is not w)
+                w.reparent(box)
+
+                def upd():
+                    del m.wires[wk][wn]
+                    m.wires['box'][wn] = w
+            else:
+                wk, wn = m.where(w)
+                what = '%s.reparentAndRename(box, %r)' % (wn, name)
+                expect = (name in m.wires['box']) and (m.wires['box'][name] is not w)
+                w.reparentAndRename(box, name)
+
+                def upd():
+                    del m.wires[wk][wn]
+                    m.wires['box'][name] = w
+    except Exception as e:
+        raised = e
+    return what, bool(expect), raised, upd
+
+
 def construct_task(p, cfg, rec):
     kind = cfg['template']
+    first = cfg['first']                       # the first operation is enumerated by the task list, the second is symbolic
     rec.update(['py4hw.base.Wire.__init__', 'py4hw.base.Logic.__init__', 'py4hw.base.Logic.appendWire', 'py4hw.base.Wire.setSource',
                 'py4hw.base.Wire.rename', 'py4hw.base.Wire.reparent', 'py4hw.base.Wire.reparentAndRename', 'py4hw.base.OutPort.__init__'])
     op, opv = core.fresh_range('op', 0, 5)
@@ -74,93 +155,62 @@ def construct_task(p, cfg, rec):
     def scenario():
         with quiet():
             s, box, x, y, bx, p1, extra = template(kind)
-        o = int(op)
-        parent = [s, box][int(par)]
-        name = POOL[int(nm)]
-        w = [x, y][int(wsel)]
+        m = Model(s, box, x, y, bx, p1)
         y_src = y.source
-        expect = None
-        raised = None
-        what = ''
-        pre_children = {k: dict(o_.children) for k, o_ in (('s', s), ('box', box))}
-        pre_wires = {k: dict(o_._wires) for k, o_ in (('s', s), ('box', box))}
-        try:
-            with quiet():
-                if o == 0:
-                    what = 'Wire(%s, %r)' % (parent.name, name)
-                    expect = name in parent._wires
-                    Wire(parent, name, 2)
-                elif o == 1:
-                    what = 'Buf(%s, %r, x, new)' % (parent.name, name)
-                    expect = name in parent.children
-                    fresh = s.wire('fresh_target', 2)
-                    Buf(parent, name, x, fresh)
-                elif o == 2:
-                    tgt = [y, None][int(par)]
-                    if tgt is None:
-                        tgt = s.wire('undriven_target', 2)
-                    what = 'Buf(sys, "drv", x, %s)' % tgt.name
-                    expect = tgt.source is not None
-                    Buf(s, 'drv', x, tgt)
-                elif o == 3:
-                    what = '%s.rename(%r)' % (w.name, name)
-                    expect = (name in s._wires) and (name != w.name)
-                    w.rename(name)
-                elif o == 4:
-                    what = '%s.reparent(box)' % w.name
-                    expect = w.name in box._wires
-                    w.reparent(box)
-                else:
-                    what = '%s.reparentAndRename(box, %r)' % (w.name, name)
-                    expect = name in box._wires
-                    w.reparentAndRename(box, name)
-        except Exception as e:
-            raised = e
-        ok_state = True
-        detail = {}
-        if raised is not None:
-            # the earlier driver / child / wire must still be in place
-            if y.source is not y_src:
-                ok_state = False
-                detail['driver of y'] = 'changed'
-            if s.children.get('p1') is not p1 or s.children.get('b') is not box:
-                ok_state = False
-                detail['children'] = 'changed'
-            for k, o_ in (('s', s), ('box', box)):
-                for n_, c_ in pre_children[k].items():
-                    if o_.children.get(n_) is not c_:
-                        ok_state = False
-                        detail['child %s of %s' % (n_, k)] = 'no longer registered'
-            # the wire that already owned the conflicting name is still registered under it
-            if o in (0,) and parent._wires.get(name) is not pre_wires['s' if parent is s else 'box'].get(name):
-                ok_state = False
-                detail['wire %s' % name] = 'replaced'
-            if o == 3 and s._wires.get(name) is not pre_wires['s'].get(name):
-                ok_state = False
-                detail['wire %s' % name] = 'replaced'
-            if o in (4, 5):
-                key = w.name if o == 4 else name
-                if box._wires.get(key) is not pre_wires['box'].get(key):
+        log = []
+        steps = ([first] if first is not None else []) + [(int(op), int(par), int(nm), int(wsel))]
+        for k, (o, pa, ni, wi) in enumerate(steps):
+            w = [x, y][wi]
+            if m.where(w)[0] is None:
+                break
+            pre_children = {kk: dict(o_.children) for kk, o_ in m.parents.items()}
+            pre_wires = {kk: dict(d) for kk, d in m.wires.items()}
+            what, expect, raised, upd = run_op(m, s, box, x, y, o, pa, POOL[ni], w, k)
+            ok_state = True
+            detail = {}
+            if raised is None:
+                upd()
+                if y.source is not y_src:
                     ok_state = False
-                    detail['wire %s of box' % key] = 'replaced'
-        if y.source is not y_src and raised is None and not (o == 2 and False):
-            ok_state = False
-            detail['driver of y'] = 'silently replaced'
-        if not registry_consistent(s) and raised is None:
-            ok_state = False
-            detail['registry'] = 'inconsistent after a successful call'
-        return (what, bool(expect), raised is not None, ok_state, detail)
+                    detail['driver of y'] = 'silently replaced'
+            else:
+                if y.source is not y_src:
+                    ok_state = False
+                    detail['driver of y'] = 'changed'
+                for kk, o_ in m.parents.items():
+                    for n_, c_ in pre_children[kk].items():
+                        if o_.children.get(n_) is not c_:
+                            ok_state = False
+                            detail['child %s of %s' % (n_, kk)] = 'no longer registered'
+                # the wire that already owned the conflicting name is still registered under it
+                name = POOL[ni]
+                tk = ['sys', 'box'][pa] if o == 0 else ('box' if o in (4, 5) else m.where(w)[0] or 'sys')
+                key = name if o in (0, 3, 5) else (m.where(w)[1] if o == 4 else None)
+                if key is not None and key in pre_wires.get(tk, {}) and m.parents[tk]._wires.get(key) is not pre_wires[tk][key]:
+                    ok_state = False
+                    detail['wire %s of %s' % (key, tk)] = 'replaced or dropped'
+            log.append((what, expect, raised is not None, ok_state, detail))
+            if raised is not None and o in (3, 4, 5):
+                break                               # the moved wire's own registration after a refused move is unspecified
+        return log
     res = run_paths(scenario)
     p.res['states'] += 1
     p.res['transitions'] += len(res)
+    seen = set()
     for r in res:
         if r.exc is not None:
             p.structural('scenario completes', False, detail={'exception': repr(r.exc)})
             continue
-        what, expect, did_raise, ok_state, detail = r.ret
-        p.structural('%s raises exactly when it creates a conflict' % what, expect == did_raise,
-                     detail={'operation': what, 'conflict': expect, 'raised': did_raise})
-        p.structural('%s leaves the earlier driver/child/wire in place' % what, ok_state, detail=dict(detail, operation=what))
+        hist = []
+        for what, expect, did_raise, ok_state, detail in r.ret:
+            hist.append(what)
+            key = ' ; '.join(hist)
+            if key in seen:
+                continue
+            seen.add(key)
+            p.structural('[%s] raises exactly when it creates a conflict' % key, expect == did_raise,
+                         detail={'history': hist, 'conflict': expect, 'raised': did_raise})
+            p.structural('[%s] leaves the earlier driver/child/wire in place' % key, ok_state, detail=dict(detail, history=hist))
 
 
 # ---------------------------------------------------------------------------------------------------
@@ -213,7 +263,27 @@ def integrity_task(p, cfg, rec):
 
 def tasks_for(tier):
     quick = tier == 'quick'
-    t = [('construction API, template %s' % k, construct_task, {'template': k}) for k in ('flat', 'two-level')]
+    t = [('construction API, template %s, one operation' % k, construct_task, {'template': k, 'first': None}) for k in ('flat', 'two-level')]
+    # two-operation histories: the first operation enumerated here, the second by symbolic selectors
+    firsts = []
+    for o in range(6):
+        for pa in (0, 1):
+            for ni in range(len(POOL)):
+                for wi in (0, 1):
+                    if o in (0, 1) and wi == 1:
+                        continue            # the wire selector is unused
+                    if o == 2 and (ni > 0 or wi == 1):
+                        continue
+                    if o in (3, 5) and pa == 1:
+                        continue
+                    if o == 4 and (ni > 0 or pa == 1):
+                        continue
+                    firsts.append((o, pa, ni, wi))
+    for f in firsts:
+        if quick and f[0] in (0, 1) and f[2] not in (0, 2):
+            continue
+        t.append(('construction API, history starting with op%d parent%d name %s wire%d' % (f[0], f[1], POOL[f[2]], f[3]), construct_task,
+                  {'template': 'flat', 'first': f}))
     seen = set()
     for mod, kind in ((c07, 'comb'), (c08, 'comb'), (c09, 'seq')):
         for name, cfg in mod.cfgs(tier):
@@ -231,7 +301,7 @@ def main(argv=None):
     return common.run_check(
         PROP, 'model_checking', tasks_for(args.tier), args, design_ref='DESIGN.md section 3 (C11)',
         technique='path-complete symbolic execution of the construction API and of checkIntegrity with symbolic selectors (operation, parent, name, wire, fault position); z3 decides selector feasibility',
-        assumptions=['one operation after a generated template (a system with two wires, a box with one wire, one primitive driver; optionally a nested box)',
+        assumptions=['histories of one or two operations after a generated template (a system with two wires, a box with one wire, one primitive driver; optionally a nested box); the expected outcome comes from an abstract registry model, not from the implementation state',
                      'a failed rename/reparent may leave the moved wire itself unregistered; the statement only demands that the earlier owner of the name stays in place',
                      'integrity clause: inputs driven by Constant blocks; single fault = one input left undriven'],
         bounds={'names': POOL, 'operations': 'Wire(), primitive construction (child name / second driver), rename, reparent, reparentAndRename',
